@@ -17,7 +17,7 @@ def is_nan(x):
 
 SERIES_T = ["hampel", "imputer-mean", "imputer-ffill", "imputer-linear", "imputer-drift", "imputer-placeholder", "log", "boxcox-pearsonr", "adaptor", "detrender", "deseasonalizer", "passthrough", "cosine"]
 FORECASTERS = ["naive-last", "naive-mean", "naive-drift", "naive-drift-failing-predict", "poly", "sm-adapter", "reduce-recursive", "ensemble", "pipeline"]
-PANEL_T = ["padding", "truncation", "paa", "tabularizer", "concatenator", "interval", "sliding", "features", "pca", "random-interval"]
+PANEL_T = ["padding", "truncation", "paa", "tabularizer", "concatenator", "interval", "sliding", "features", "pca", "random-interval", "derivative-slope"]
 
 
 def _contract_pca(getW):
@@ -114,9 +114,13 @@ class C12(Harness):
             return int(v)
 
         if cell["kind"] == "pt":
-            c = {"kind": {"interval": "interval-int", "pca": "concatenator", "random-interval": "features"}.get(cell["which"], cell["which"])}
+            c = {"kind": {"interval": "interval-int", "pca": "concatenator", "random-interval": "features", "derivative-slope": "concatenator"}.get(cell["which"], cell["which"])}
             _c14.HARNESS._tier = "quick"
             inp = _c14.HARNESS.inputs(ctx, c)
+            if cell["which"] == "derivative-slope":
+                if len({len(col) for inst in inp["x"] for col in inst}) != 1 or len(inp["x"][0][0]) < 3:
+                    ctx.assume(False)  # equal-length series of at least three points
+                inp["labelled"] = choice("labelled", 0, 1)  # 1: the cells carry monthly period labels instead of 0..n-1
             if cell["which"] == "pca":
                 if len(inp["x"][0]) != 1:
                     ctx.assume(False)  # univariate only
@@ -378,14 +382,28 @@ class C12(Harness):
         w = {"interval": "interval-int"}.get(cell["which"], cell["which"])
         c14 = _c14.HARNESS
         X, sym = c14._nested(inp["x"])
-        run = (lambda XX: self._pca(W, XX, inp)) if w == "pca" else (lambda XX: c14._panel(W, XX, inp, {"kind": {"random-interval": "features"}.get(w, w)}, sym))
+        if inp.get("labelled"):
+            for j in range(X.shape[1]):
+                for i in range(X.shape[0]):
+                    X.iloc[i, j].index = pd.period_range("2000-%02d" % (1 + i), periods=len(X.iloc[i, j]), freq="M")
+
+        def labels_of(df):
+            return [[[type(df.iloc[i, j].index).__name__] + [str(v) for v in df.iloc[i, j].index] for j in range(df.shape[1])] for i in range(df.shape[0])]
+
+        def _der(XX):
+            DS = W.load("sktime.transformations.panel.summarize._extract").DerivativeSlopeTransformer
+            return {"cells": _c14.cells_of(DS().fit(XX).transform(XX))}
+
+        run = _der if w == "derivative-slope" else (lambda XX: self._pca(W, XX, inp)) if w == "pca" else (lambda XX: c14._panel(W, XX, inp, {"kind": {"random-interval": "features"}.get(w, w)}, sym))
         worlds.TOKEN_MODE[0] = sym
         try:
             before = _c14.cells_of(X)
+            lab_before = labels_of(X)
             r1 = run(X)
             after = _c14.cells_of(X)
+            lab_after = labels_of(X)
             r2 = run(X)
-            out = {"before": before, "after": after, "r1": {k: v for k, v in r1.items() if k != "back"}, "r2": {k: v for k, v in r2.items() if k != "back"}}
+            out = {"before": before, "after": after, "labels_before": lab_before, "labels_after": lab_after, "r1": {k: v for k, v in r1.items() if k != "back"}, "r2": {k: v for k, v in r2.items() if k != "back"}}
             lens = {len(col) for inst in inp["x"] for col in inst}
             t = self._pt_make(W, w, inp)
             if t is not None and len(lens) == 1 and min(lens) >= 2:
@@ -469,6 +487,7 @@ class C12(Harness):
         d = {"estimator": cell["which"]}
         if cell["kind"] == "pt":
             self._same_tree(P, "apply-leaves-caller-data-unchanged", out["after"], out["before"], d)
+            P.check("apply-leaves-caller-data-unchanged", out["labels_after"] == out["labels_before"], dict(d, what="time labels of the caller's cells"))
             self._same_tree(P, "repeated-apply-same-result", out["r2"], out["r1"], d)
             pr = out.get("proto")
             if pr:
